@@ -62,9 +62,10 @@ def derive_config(workdir, overrides):
     open(os.path.join(cfgdir, 'libTMCG_config.h'), 'w').write(txt)
     return cfgdir, '\n'.join(extra)
 
-def compile_tu(src, cfgdir, cfgtxt, defines, workdir):
+def compile_tu(src, cfgdir, cfgtxt, defines, workdir, noinline=False):
     os.makedirs(CACHE, exist_ok=True)
     dflags = ['-D%s=%s' % (k, v) for k, v in sorted(defines.items())]
+    if noinline: dflags.append('-fno-inline')   # keep replaced (stubbed) functions as call targets
     key = sha(open(src, 'rb').read(), headers_digest(), cfgtxt, ' '.join(CXXFLAGS + dflags), src)
     out = os.path.join(CACHE, '%s_%s.ll' % (os.path.basename(src).replace('.', '_'), key))
     with _locks_guard:
@@ -98,10 +99,11 @@ def build(h, workdir, witness=False):
     """returns dict(c=path to generated C, info=...)"""
     cfgdir, cfgtxt = derive_config(workdir, h.get('config', {}))
     defines = dict(h.get('defines', {}))
+    noinline = bool(h.get('replace')) or bool(h.get('noinline'))
     srcs = [os.path.join(VERIF, 'harness', h['src']), RT_TU] + [os.path.join(REPO, 'src', t) for t in h.get('tu', [])]
     lls = []
     with ThreadPoolExecutor(max_workers=4) as ex:
-        lls = list(ex.map(lambda s: compile_tu(s, cfgdir, cfgtxt, defines, workdir), srcs))
+        lls = list(ex.map(lambda s: compile_tu(s, cfgdir, cfgtxt, defines, workdir, noinline and s.startswith(REPO)), srcs))
     linked = os.path.join(workdir, 'all.ll')
     r = sh(['llvm-link-14', '-S', '-o', linked] + lls)
     if r.returncode != 0:
@@ -114,6 +116,12 @@ def build(h, workdir, witness=False):
         dm = demangle_all(names)
         for key, new in h.get('replace', {}).items():
             hits = [n for n in names if dm[n] == key or dm[n].split('(')[0] == key]
+            if new not in names:
+                cand = [n for n in names if dm[n] == new or dm[n].split('(')[0] == new]
+                if len(cand) != 1:
+                    if hits: raise BuildError('replace: target %r matches %d functions' % (new, len(cand)))
+                    continue
+                new = cand[0]
             hits = [n for n in hits if n != new]
             if not hits:
                 continue   # not referenced by this harness
@@ -131,7 +139,7 @@ def build(h, workdir, witness=False):
     return {'c': outc, 'info': json.load(open(info)), 'cfg': cfgtxt, 'defines': defines}
 
 def model_files(h):
-    ms = ['vf_rt.c'] + h.get('models', ['gmp_model.c'])
+    ms = ['vf_rt.c'] + h.get('models', ['gmp_model.c', 'libc_model.c'])
     return [os.path.join(MODELS, m) for m in ms]
 
 def cbmc_cmd(h, b, witness):
@@ -147,8 +155,12 @@ def cbmc_cmd(h, b, witness):
         cmd += ['--trace']
         if h.get('no_pointer_checks'):
             cmd += ['--no-pointer-check', '--no-bounds-check', '--no-div-by-zero-check', '--no-signed-overflow-check', '--no-undefined-shift-check', '--no-pointer-primitive-check']
+    if h.get('paths'):
+        cmd += ['--paths', 'lifo']   # one path at a time: text parsers branch on every symbolic character
     for extra in h.get('cbmc_flags', []):
         cmd.append(extra)
+    if h.get('backend') == 'cvc5int':
+        cmd += ['--cvc5']
     if h.get('backend') == 'cadical':
         cmd += ['--sat-solver', 'cadical']
     elif h.get('backend') == 'kissat':
@@ -165,7 +177,8 @@ def run_cbmc(cmd, timeout, memgb, logpath):
     t0 = time.time()
     maxrss = 0
     try:
-        p = subprocess.Popen(cmd, stdout=subprocess.PIPE, stderr=subprocess.PIPE, text=True, preexec_fn=limit_mem(memgb))
+        env = dict(os.environ); env['PATH'] = os.path.join(VERIF, 'engine', 'shim') + ':' + env.get('PATH', '')
+        p = subprocess.Popen(cmd, stdout=subprocess.PIPE, stderr=subprocess.PIPE, text=True, preexec_fn=limit_mem(memgb), env=env)
         try:
             out, err = p.communicate(timeout=timeout)
         except subprocess.TimeoutExpired:
@@ -268,7 +281,7 @@ def run_harness(h, tier, rootdir, keep):
         if w['status'] != 'ok':
             res['status'] = 'inconclusive'; res['inconclusive'].append('witness run: %s %s' % (w['status'], w.get('detail', ''))); return res
         failed_loops = [r['property'] for r in w['results'] if 'unwinding assertion' in r.get('description', '') and r['status'] == 'FAILURE']
-        if not failed_loops or rounds >= 6: break
+        if not failed_loops or rounds >= (20 if h.get('paths') else 6): break
         grew = False
         for pr in failed_loops:
             m_ = re.fullmatch(r'(.*)\.unwind\.(\d+)', pr)
@@ -286,8 +299,14 @@ def run_harness(h, tier, rootdir, keep):
     res['witnesses'] = len(wit)
     if not wit or unreached:
         res['status'] = 'inconclusive'; res['inconclusive'].append('vacuous: witness not reachable: %s' % (unreached or 'no witness in harness')); return res
-    m = run_cbmc(cbmc_cmd(h, b, False), timeout, mem, os.path.join(wd, 'main.log'))
-    res['queries'] += 1; res['solver_s'] += m.get('wall', 0)
+    bks = h.get('backend') if isinstance(h.get('backend'), list) else [h.get('backend')]
+    for bi, bk in enumerate(bks):
+        hb = dict(h); hb['backend'] = bk
+        to = timeout if bi == len(bks) - 1 else min(timeout, h.get('first_backend_timeout', 150))
+        m = run_cbmc(cbmc_cmd(hb, b, False), to, mem, os.path.join(wd, 'main.log'))
+        res['queries'] += 1; res['solver_s'] += m.get('wall', 0)
+        res.setdefault('backends_tried', []).append('%s:%s' % (bk or 'minisat', m['status']))
+        if m['status'] == 'ok': break
     if m['status'] != 'ok':
         res['status'] = 'inconclusive'; res['inconclusive'].append('main run: %s %s' % (m['status'], m.get('detail', ''))); return res
     viol, incon, nprops = classify(m['results'])
@@ -433,7 +452,7 @@ def write_evidence(prop, tier, seed, results, wall, nviol):
             'inconclusive': [{'harness': r['id'], 'why': r['inconclusive'][:5]} for r in results if r['inconclusive']],
             'harness_results': {r['id']: r['status'] for r in results},
             'violations_detail': [{'harness': r['id'], 'assertion': v['description'], 'replay': v.get('replay'), 'known': v.get('known'), 'native': v.get('native_replay')} for r in results for v in r['violations']][:40],
-            'models': sorted({m for r in results for m in ['vf_rt.c', 'gmp_model.c']}),
+            'models': sorted({m for r in results for m in ['vf_rt.c', 'gmp_model.c', 'libc_model.c']}),
         },
         'assumptions': sorted({a for r in results for a in r.get('assumptions', [])} | {
             'clang-14 IR generation, ir2c.py translation and CBMC are trusted; ministl stands in for libstdc++; models/*.c stand in for GMP/libgcrypt/libc (bounded integers < 2^VF_BITS)',
